@@ -577,6 +577,57 @@ impl<'c, 's, 'ast> Visit<'ast> for FnVisitor<'c, 's> {
         visit::visit_expr_loop(self, l);
     }
 
+    /// R20: `match S { "a" => X, "b" | "c" => Y, _ => Z }` (string-literal patterns only, no guards) ->
+    /// `{ let vx_mN = S; if vx_mN == "a" { X } else if vx_mN == "b" || vx_mN == "c" { Y } else { Z } }`
+    /// (Verus gives string-literal patterns no meaning; `==` on str has a specification)
+    fn visit_expr_match(&mut self, m: &'ast syn::ExprMatch) {
+        fn lits(p: &syn::Pat, out: &mut Vec<String>) -> bool {
+            match p {
+                syn::Pat::Lit(l) => { if let syn::Lit::Str(s) = &l.lit { out.push(s.token().to_string()); true } else { false } }
+                syn::Pat::Or(o) => o.cases.iter().all(|c| lits(c, out)),
+                _ => false,
+            }
+        }
+        let n = m.arms.len();
+        let mut conds: Vec<Option<String>> = Vec::new();
+        let mut ok = n >= 2;
+        for (i, arm) in m.arms.iter().enumerate() {
+            if arm.guard.is_some() { ok = false; break; }
+            if let syn::Pat::Wild(_) = arm.pat { if i == n - 1 { conds.push(None); continue; } else { ok = false; break; } }
+            let mut v = Vec::new();
+            if !lits(&arm.pat, &mut v) { ok = false; break; }
+            conds.push(Some(v.join("\u{1}")));
+        }
+        if ok && conds.iter().any(|c| c.is_some()) && conds.last().map(|c| c.is_none()).unwrap_or(false) {
+            let k = self.r14n; self.r14n += 1;
+            let var = format!("vx_m{}", k);
+            let (ms, _) = br(m.span());
+            let mstart = m.attrs.iter().map(|a| br(a.span()).1).max().unwrap_or(ms).max(ms);
+            let (es, ee) = br(m.expr.span());
+            let bo = br(m.brace_token.span.open());
+            let scrut = self.cx.text(es, ee).to_string();
+            self.cx.edit(mstart, bo.1, format!("{{ let {} = {}; ", var, scrut), "R20");
+            for (i, arm) in m.arms.iter().enumerate() {
+                let (ps, _) = br(arm.pat.span());
+                let (_, ae) = br(arm.fat_arrow_token.span());
+                let head = match &conds[i] {
+                    Some(c) => {
+                        let cond = c.split('\u{1}').map(|l| format!("{} == {}", var, l)).collect::<Vec<_>>().join(" || ");
+                        format!("{}if {} {{", if i == 0 { "" } else { "else " }, cond)
+                    }
+                    None => "else {".to_string(),
+                };
+                self.cx.edit(ps, ae, head, "R20");
+                let (_, be) = br(arm.body.span());
+                match &arm.comma {
+                    Some(c) => { let (cs, ce) = br(c.span()); self.cx.edit(be, be, " }", "R20"); self.cx.edit(cs, ce, "", "R20"); }
+                    None => { self.cx.edit(be, be, " }", "R20"); }
+                }
+            }
+        }
+        visit::visit_expr_match(self, m);
+    }
+
     fn visit_expr_if(&mut self, i: &'ast syn::ExprIf) {
         if let syn::Expr::Let(l) = &*i.cond {
             let bo = br(i.then_branch.brace_token.span.open()).0;
